@@ -6,6 +6,7 @@ import (
 	"context"
 	"errors"
 	"fmt"
+	"strings"
 	"testing"
 	"testing/synctest"
 	"time"
@@ -14,6 +15,7 @@ import (
 	"github.com/ipfs/ipfs-cluster/api"
 
 	"verif/harness/lib/clus"
+	"verif/harness/lib/ev"
 )
 
 type pubRec struct {
@@ -24,6 +26,10 @@ type pubRec struct {
 }
 
 func scriptFails(script string, k int) bool {
+	if strings.HasPrefix(script, "mask:") {
+		m := script[len("mask:"):]
+		return k < len(m) && m[k] == '1'
+	}
 	switch script {
 	case "first":
 		return k == 0
@@ -41,10 +47,26 @@ func TestCadence(t *testing.T) {
 	taus := []time.Duration{2 * time.Second, 30 * time.Second}
 	pings := []time.Duration{time.Second, 15 * time.Second}
 	scripts := []string{"never", "first", "every-other(2nd,4th,..)", "every-other(1st,3rd,..)"}
+	// every pattern of publish errors over the first maskLen attempts of each
+	// metric name (consecutive errors included), none afterwards
+	maskLen := 5
+	if ev.Thorough() {
+		maskLen = 7
+	}
+	for m := 1; m < 1<<maskLen; m++ {
+		b := []byte(strings.Repeat("0", maskLen))
+		for k := 0; k < maskLen; k++ {
+			if m&(1<<k) != 0 {
+				b[k] = '1'
+			}
+		}
+		scripts = append(scripts, "mask:"+string(b))
+	}
 	sec.Bounds["informer_ttl"] = []string{"2s", "30s"}
 	sec.Bounds["monitor_ping_interval"] = []string{"1s", "15s"}
-	sec.Bounds["publish_error_script(per metric name)"] = scripts
-	sec.Bounds["fake_time_run"] = "10 x informer TTL"
+	sec.Bounds["publish_error_script(per metric name)"] = fmt.Sprintf("never, first, every other (two phases), and every error pattern over the first %d publish attempts (%d scripts)", maskLen, len(scripts))
+	sec.Bounds["oracle"] = "after a success the next success comes strictly before its expiry when at most one attempt in between failed (the retry the code is built for); after a longer burst of errors the next attempt must still come within the retry interval (informer: TTL/4, ping: the ping interval) of the last failed one; the last success of the run must not have expired"
+	sec.Bounds["fake_time_run"] = "max(10 x informer TTL, (mask length + 4) x ping interval)"
 	for _, tau := range taus {
 		for _, pi := range pings {
 			for _, script := range scripts {
@@ -77,7 +99,11 @@ func TestCadence(t *testing.T) {
 						t.Fatal(err)
 					}
 					<-p.C.Ready()
-					time.Sleep(10 * tau)
+					horizon := 10 * tau
+					if h := time.Duration(maskLen+4) * pi; h > horizon {
+						horizon = h // every scripted ping error and the recovery after it
+					}
+					time.Sleep(horizon)
 					synctest.Wait()
 					runFor = time.Since(start)
 					mon.PublishErr = nil
@@ -95,15 +121,33 @@ func TestCadence(t *testing.T) {
 					if name == "ping" {
 						kind = "ping"
 					}
-					var prev *pubRec
-					nOK := 0
+					var prev, lastErr *pubRec
+					nOK, burst := 0, 0
+					retry := tau / 4
+					if name == "ping" {
+						retry = pi
+					}
 					for i := range recs {
 						r := &recs[i]
-						if r.Name != name || r.Failed {
+						if r.Name != name {
 							continue
 						}
+						if lastErr != nil && r.At-lastErr.At > retry {
+							verdict = "violated"
+							R.Violation("C09|cadence|"+kind+"|errors="+script+"|retry-late", map[string]interface{}{
+								"case": caseS, "metric": name, "failed_publish": fmt.Sprintf("t=+%s", lastErr.At), "next_attempt": fmt.Sprintf("t=+%s", r.At),
+								"expected": "next attempt within " + retry.String() + " of the failed one", "publishes": recsOf(recs, name, 12)})
+						}
+						if r.Failed {
+							lastErr = r
+							burst++
+							continue
+						}
+						lastErr = nil
+						b := burst
+						burst = 0
 						nOK++
-						if prev != nil && r.At >= prev.Expire {
+						if prev != nil && b <= 1 && r.At >= prev.Expire {
 							how := "after-expiry"
 							if r.At == prev.Expire {
 								how = "at-expiry-instant"
@@ -117,7 +161,21 @@ func TestCadence(t *testing.T) {
 						prev = r
 					}
 					if nOK == 0 {
-						R.Broken("cadence %s: no successful publish of %s at all in %s", caseS, name, runFor)
+						if len(recsOf(recs, name, 1)) == 0 {
+							R.Broken("cadence %s: no publish attempt of %s at all in %s", caseS, name, runFor)
+						} else {
+							// the scripted errors end after maskLen attempts and the run is
+							// longer than that: the peer stopped trying
+							verdict = "violated"
+							R.Violation("C09|cadence|"+kind+"|errors="+script+"|never-published", map[string]interface{}{
+								"case": caseS, "metric": name, "run_ended": runFor.String(), "publishes": recsOf(recs, name, 12)})
+						}
+					}
+					if lastErr != nil && runFor-lastErr.At > retry {
+						verdict = "violated"
+						R.Violation("C09|cadence|"+kind+"|errors="+script+"|retry-missing", map[string]interface{}{
+							"case": caseS, "metric": name, "failed_publish": fmt.Sprintf("t=+%s", lastErr.At), "run_ended": runFor.String(),
+							"expected": "another attempt within " + retry.String(), "publishes": recsOf(recs, name, 12)})
 					}
 					if prev != nil && prev.Expire <= runFor {
 						verdict = "violated"
